@@ -230,6 +230,12 @@ func TestVerifC01Listeners(t *testing.T) {
 		{0, 0}, {0, 1, 7}, append([]byte{0, byte(len(q) - 1)}, q...), append([]byte{0, byte(len(q) + 1)}, q...), append([]byte{0xFF, 0xFF}, q...), {0}, bytes.Repeat([]byte{0xAA}, 5000),
 		append(append(refdns.Frame(q[:12]), refdns.Frame(q)...), 0, 0), []byte("GET / HTTP/1.1\r\nHost: x\r\n\r\n"),
 	}
+	// a valid query with an undecodable frame right behind it in the same segment: the connection is closed while the
+	// query is still in flight (its response is written, or fails to be written, afterwards)
+	for _, m := range c01Malformed() {
+		lies = append(lies, append(refdns.Frame(q), refdns.Frame(m)...))
+	}
+	lies = append(lies, append(append(refdns.Frame(q), refdns.Frame(q)...), 0xFF, 0xFF, 1, 2, 3))
 	httpAsk := func(scheme, addr string, post bool) func(id uint16) bool {
 		return func(id uint16) bool {
 			tr := &http.Transport{TLSClientConfig: insecure, ForceAttemptHTTP2: true}
@@ -395,6 +401,33 @@ func TestVerifC01Listeners(t *testing.T) {
 		}
 	}
 	var wg sync.WaitGroup
+	// the listeners are driven concurrently and share the one process: its death is reported once, identified by the
+	// place in the implementation where it died (from the child's stderr), with every input that was outstanding
+	var diedOnce sync.Once
+	var diedMu sync.Mutex
+	var diedDescs []string
+	died := func(name, desc string) {
+		diedMu.Lock()
+		diedDescs = append(diedDescs, desc)
+		diedMu.Unlock()
+		diedOnce.Do(func() {
+			time.Sleep(500 * time.Millisecond) // let the other drivers notice and record their outstanding input
+			where := "unknown"
+			for _, ln := range strings.Split(stderr.String(), "\n") {
+				if strings.HasPrefix(ln, "github.com/IrineSistiana/mosproxy/") && !strings.Contains(ln, "zzverif") {
+					where = strings.TrimPrefix(ln, "github.com/IrineSistiana/mosproxy/")
+					if i := strings.LastIndexByte(where, '('); i > 0 {
+						where = where[:i]
+					}
+					break
+				}
+			}
+			diedMu.Lock()
+			all := strings.Join(diedDescs, "\n  ")
+			diedMu.Unlock()
+			rep.Violate("C01:listener:process-died@"+where, fmt.Sprintf("the proxy process died; inputs outstanding:\n  %s\n%s", all, tail(stderr.String(), 3000)), nil)
+		})
+	}
 	var idmu sync.Mutex
 	id := uint16(0x2000)
 	nextID := func() uint16 { idmu.Lock(); defer idmu.Unlock(); id++; return id }
@@ -448,7 +481,7 @@ func TestVerifC01Listeners(t *testing.T) {
 					l.send(in)
 				}
 				if !alive() {
-					rep.Violate("C01:listener:"+l.name+":process-died", fmt.Sprintf("the proxy process died after %s\n%s", desc, tail(stderr.String(), 3000)), nil)
+					died(l.name, desc)
 					return
 				}
 				ok := false
@@ -457,7 +490,7 @@ func TestVerifC01Listeners(t *testing.T) {
 				}
 				if !ok {
 					if !alive() {
-						rep.Violate("C01:listener:"+l.name+":process-died", fmt.Sprintf("the proxy process died after %s\n%s", desc, tail(stderr.String(), 3000)), nil)
+						died(l.name, desc)
 						return
 					}
 					rep.Violate("C01:listener:"+l.name+":stopped-serving", fmt.Sprintf("after %s a valid query on the same listener is no longer answered (3 attempts)", desc), nil)
